@@ -657,7 +657,9 @@ Expr={expr}"""
             # exacerbated by the fact that the list contains duplicates.  This is a patch until
             # we can create a better fix for Serialization.
             try:
-                values = list(set(values))
+                # (order preserving: the order of a set of strings depends on the
+                # hash seed and would leak into the name of the expression)
+                values = list(dict.fromkeys(values))
             except TypeError:
                 pass
             if not any(is_dask_collection(v) for v in values):
